@@ -186,6 +186,9 @@ def mixed_graph(rng, with_custom=True, fixed_mode='first'):
         ffp = False
         pose_vs = [v for v in vs2 if not isinstance(v.pose, (PoseR2, PoseR3)) or kind in ('R2', 'R3')]
         chosen = rng.sample(pose_vs, rng.randint(1, max(1, len(pose_vs) // 2)))
+        lm_vs = [v for v in vs2 if not any(v is p for p in pose_vs)]
+        if lm_vs and rng.random() < 0.4:
+            chosen = chosen + [rng.choice(lm_vs)]          # a surveyed landmark: a fixed vertex whose block is narrower than a pose block
         intended_ids = set(v.id for v in chosen)
         if rng.random() < 0.4:
             # the flag given at construction, as the documented third POSITIONAL argument: Vertex(id, pose, True)
